@@ -250,7 +250,7 @@ class BubblePoint:
         elif liquid_conversion is None:
             f = self._T_error
             z_norm = z / z.sum()
-            z_over_P = z/P
+            z_over_P = z_norm / P
             T_guess, y = self._Ty_ideal(z_over_P)
             args = (P, z_over_P, z_norm, y)
             try:
@@ -271,7 +271,7 @@ class BubblePoint:
             z_norm = z / z.sum()
             x = z_norm.copy()
             dz = z_norm.copy()
-            z_over_P = z / P
+            z_over_P = z_norm / P
             T_guess, y = self._Ty_ideal(z_over_P)
             args = (P, z_norm, dz, y, x, liquid_conversion)
             try:
@@ -351,7 +351,7 @@ class BubblePoint:
             Psats = np.array([i(T) for i in self.Psats])
             x = z_norm.copy()
             dz = z_norm.copy()
-            z_Psat_gamma = z * Psats * self.gamma(z_norm, T)
+            z_Psat_gamma = z_norm * Psats * self.gamma(z_norm, T)
             P_guess, y = self._Py_ideal(z_Psat_gamma)
             args = (T, Psats, z_norm, dz, y, x, liquid_conversion)
             try:
